@@ -13,14 +13,23 @@ MCKind == [e \in Ids |-> IF e = "R" THEN "roadm" ELSE IF e = "A" THEN "amp" ELSE
 Fib == {"F1", "F2", "F3", "F4"}
 L(km, loss) == [km |-> km, loss |-> loss]
 P(f, a) == [f |-> f, a |-> a]
-S(attIn, conIn, conOut, lumps, lenKm, alpha) ==
-   [attIn |-> attIn, conIn |-> conIn, conOut |-> conOut, lumps |-> lumps, lenKm |-> lenKm, alpha |-> alpha]
+Ref(kind, v) == [kind |-> kind, v |-> v]
+S(attIn, conIn, conOut, lumps, lenKm, alpha, disp, dispTab, ref) ==
+   [attIn |-> attIn, conIn |-> conIn, conOut |-> conOut, lumps |-> lumps, lenKm |-> lenKm, alpha |-> alpha,
+    disp |-> disp, dispTab |-> dispTab, ref |-> ref]
+\* dispersion (1e-3 ps/nm/km): F1 the library's figure for its type at the default reference (1550 nm); F2 written in the
+\* element, the fibre parameters being given at a reference WAVELENGTH of 1590 nm; F3 a per-frequency table (no single value:
+\* its CD contribution is abstract); F4 written in the element, parameters given at a reference FREQUENCY of 192 THz
 MCSpan == [e \in Fib |->
-   CASE e = "F1" -> S(0,        500000, 500000, <<>>,                                 80,  <<P(0, 200)>>)
-     [] e = "F2" -> S(1500000,  200000, 700000, <<L(10, 1 * dB), L(30, 500000)>>,     50,  <<P(0, 220)>>)
+   CASE e = "F1" -> S(0,        500000, 500000, <<>>,                                 80,  <<P(0, 200)>>,
+                      16700, <<>>, Ref("default", 0))
+     [] e = "F2" -> S(1500000,  200000, 700000, <<L(10, 1 * dB), L(30, 500000)>>,     50,  <<P(0, 220)>>,
+                      19500, <<>>, Ref("wavelength", 1590))
      \* F3: per-frequency table listed by increasing WAVELENGTH (decreasing frequency); F4: listed by increasing frequency
-     [] e = "F3" -> S(0,        0,      300000, <<L(50, 2 * dB)>>,                    100, <<P(196000, 210), P(193500, 200), P(191000, 220)>>)
-     [] e = "F4" -> S(3 * dB,   100000, 100000, <<>>,                                 25,  <<P(191000, 190), P(196000, 210)>>)]
+     [] e = "F3" -> S(0,        0,      300000, <<L(50, 2 * dB)>>,                    100, <<P(196000, 210), P(193500, 200), P(191000, 220)>>,
+                      NONE, <<P(196500, 23000), P(193500, 22000), P(190500, 20500)>>, Ref("default", 0))
+     [] e = "F4" -> S(3 * dB,   100000, 100000, <<>>,                                 25,  <<P(191000, 190), P(196000, 210)>>,
+                      17000, <<>>, Ref("frequency", 192000))]
 Idx(e) == CASE e = "F1" -> 1 [] e = "F2" -> 2 [] e = "F3" -> 3 [] e = "F4" -> 4 [] e = "R" -> 5 [] e = "A" -> 6
 MCDCd  == [e \in Ids |-> [c \in MCChan |-> IF e \in Fib THEN 1000 * Idx(e) * Idx(e) + 10 * c ELSE 0]]
 MCDLat == [e \in Ids |-> IF e \in Fib THEN 7 * Idx(e) * Idx(e) + 1 ELSE 0]
@@ -33,14 +42,39 @@ MCAssembliesQuick == {F \cup {"R", "A"} : F \in {X \in SUBSET Fib : Cardinality(
 Emit == Len(done) < Cardinality(elems) \/
    PrintT("@@" \o ToJson([order |-> done,
                           budget |-> [k \in 1..Len(done) |-> IF IsFiber(done[k]) THEN [c \in 1..N |-> Budget(done[k], c)] ELSE <<>>],
+                          \* CD each span adds, from its configuration (single-value dispersion; <<>>: not decided by the model)
+                          cdAdd |-> [k \in 1..Len(done) |-> IF IsFiber(done[k]) /\ Span[done[k]].disp # NONE
+                                                            THEN [c \in 1..N |-> OwnCd(done[k], c)] ELSE <<>>],
                           total |-> [c \in 1..N |-> acc.loss[c]]]))
 \* the configuration of the fibres, emitted once (the harness builds the real Fiber elements from it)
 \* LowPower (Raman on, -60 dBm per channel, loss = budget) is explored over the grid (fibre length) x (solver spatial resolution,
 \* m): fine, the 10 km default, one that divides no length, and one longer than the shortest fibre (lengths 25 / 50 / 80 / 100 km)
 LowPowerSteps == <<500, 7000, 10000, 30000>>
 FirstAssembly == CHOOSE a \in Assemblies : TRUE
+\* Lumped-loss positions (Raman on, low power: LowPower and LumpedOnce in the quick tier).  A short fibre with one lumped loss,
+\* to which ONE MORE lumped loss of 1.5 dB is added at every position of a grid: span start, inside off / on a point of the
+\* solver's grid, 1 km before the end, the span end.  `valid` = SpanValid (boundaries excluded): an invalid configuration may be
+\* refused; when the constructor accepts it the emitted budget (every lumped loss once) is what the fibre must apply.
+ProbeBase     == S(0, 300000, 200000, <<L(5, 700000)>>, 20, <<P(0, 200)>>, 16700, <<>>, Ref("default", 0))
+ProbeKm       == {0, 7, 10, 19, 20}
+ProbeLoss     == 1500000
+ProbeSpan(km) == [ProbeBase EXCEPT !.lumps = Append(@, L(km, ProbeLoss))]
+BudgetSeq(s)  == [c \in 1..N |-> BudgetOf(s, c)]
+Probes        == [base |-> [span |-> ProbeBase, budget |-> BudgetSeq(ProbeBase)],
+                  extra |-> ProbeLoss,
+                  at |-> {[km |-> km, span |-> ProbeSpan(km), valid |-> SpanValid(ProbeSpan(km)), budget |-> BudgetSeq(ProbeSpan(km))]
+                          : km \in ProbeKm},
+                  \* solver settings: perturbative on a 2.5 km grid (10 km on a grid point, 7 / 19 km off), numerical at 50 m
+                  \* (exact = FALSE: Euler discretisation error, only the relational LumpedOnce is judged)
+                  settings |-> {[method |-> "perturbative", order |-> 2, step |-> 2500, exact |-> TRUE],
+                                [method |-> "numerical", order |-> 2, step |-> 50, exact |-> FALSE]}]
+\* the fibres of the assemblies are valid configurations; the probe grid holds valid positions and both boundaries
+ASSUME /\ \A e \in Fib : SpanValid(MCSpan[e])
+       /\ SpanValid(ProbeBase)
+       /\ {km \in ProbeKm : ~SpanValid(ProbeSpan(km))} = {0, ProbeBase.lenKm}
+       /\ {km \in ProbeKm : SpanValid(ProbeSpan(km))} # {}
 EmitConfig == done # <<>> \/ elems # FirstAssembly \/
-   PrintT("@@" \o ToJson([chanF |-> ChanF, span |-> [e \in Fib |-> Span[e]], lowPowerSteps |-> LowPowerSteps]))
+   PrintT("@@" \o ToJson([chanF |-> ChanF, span |-> [e \in Fib |-> Span[e]], lowPowerSteps |-> LowPowerSteps, probes |-> Probes]))
 \* Raman-on relational clauses (thorough tier): the solver settings under which the shipped Raman fibre configurations
 \* are exercised.  `exact`: the method reproduces plain attenuation exactly in the low-power limit (the numerical
 \* Euler scheme has a discretisation error proportional to its step, so LowPower is not judged for it).
